@@ -162,3 +162,7 @@ def run(ctx):
     if pf is not None:
         prc2(ctx, lib, pf)
     prc3(ctx, lib, roles)
+    from . import classprinter
+    ctx.rule("ADJ-1", "bracket-class ranges x-y are formed only over runs of consecutive scalar values: the position function is the library order of all chars or a "
+                      "constant-offset map verified at every breakpoint (surrogate gap), resp. the adjacency predicate agrees with 'next scalar value' on all breakpoint pairs")
+    classprinter.adj1(ctx, lib)
